@@ -152,8 +152,29 @@ def check(case):
         T.append(set(d["train"]))
     trained = all(m.is_trained for m in models)
     if not trained:
-        # training failed in some fold: brew returns zeros / falls back; integrity of scoring is vacuous
-        return {"nontrivial": False, "classes": ["untrained"]}
+        # Training failed in some fold(s).  There is no "model of its fold" for the PSMs of an untrained fold, so mokapot
+        # scores by no model at all (zeros / the best feature).  What the statement still forbids: a returned score that
+        # comes out of a model which saw the PSM or its spectrum.  Scores that are constant or a copy of an input feature
+        # are not model output; otherwise every final-phase prediction of model j on a row of its own training data is
+        # such a score (brew discards nothing it predicts).
+        ntr = sum(bool(m.is_trained) for m in models)
+        derived = []
+        for fi, sc in enumerate(scores):
+            sc = np.asarray(sc, dtype=float).ravel()
+            require(len(sc) == len(dfs[fi]), "score-length", f"file {fi}: {len(sc)} scores for {len(dfs[fi])} PSMs")
+            const = bool(np.all(sc == sc[0]))
+            isfeat = any(np.array_equal(sc, dfs[fi][c].to_numpy(dtype=float)) for c in metas[fi]["features"])
+            if not (const or isfeat):
+                derived.append(fi)
+        if derived:
+            for j in range(len(models)):
+                tkeys = {key_of[rr] for rr in T[j]}
+                seen = [rr for rr in R[j] if rr // 1_000_000 in derived and (rr in T[j] or key_of[rr] in tkeys)]
+                require(not seen, "scored-by-model-that-saw-it",
+                        f"training failed in {len(models) - ntr} of {len(models)} folds, yet the returned scores are model output and model "
+                        f"{j + 1} scored {len(seen)} PSMs that (or whose spectrum) it was trained on, e.g. rows {sorted(seen)[:3]}")
+        return {"nontrivial": False, "classes": ["untrained", "partly-trained" if 0 < ntr < len(models) else "no-fold-trained"]
+                + (["partly-trained:scores-are-model-output"] if derived else [])}
     # --- partition ----------------------------------------------------------
     union = set()
     for j, rj in enumerate(R):
@@ -192,7 +213,7 @@ def check(case):
             require(len(T[j]) <= cap, "cap-exceeded", f"model {j + 1}: {len(T[j])} training rows for cap {cap}")
             require(len(T[j]) >= min(cap, len(comp)) - nfiles, "cap-underused", f"model {j + 1}: only {len(T[j])} training rows for cap {cap}")
     # --- score provenance + input order ---------------------------------------
-    is_proba = case["est"].startswith("Proba")
+    is_proba = case["est"].startswith("Proba") and not case.get("fail_marks")
     for fi, sc in enumerate(scores):
         sc = np.asarray(sc, dtype=float).ravel()
         n = len(dfs[fi])
